@@ -27,7 +27,7 @@ ASSUMPTIONS = ['the reference result of a page is the one obtained from a freshl
                'transcriptions compared exactly, confidences within 1e-12', 'stub OCR network and toy LM as in C07 / C03']
 N = {'quick': 72, 'thorough': 4000}
 CLASSES = ['beam_nolm', 'lm_nocarry', 'lm_carry', 'lm_carry', 'greedy', 'lm_carry_threshold', 'page_parser', 'lm_carry', 'layout_history', 'lm_carry', 'layout_history', 'beam_nolm']
-REQUIRED = ['pages_under_a_limit_that_others_exceed', 'given_line_pages', 'layout_history_pages', 'layout_pages_without_upright_lines', 'histories', 'page_results_compared', 'pages_after_other_page', 'repeated_pages', 'carry_lines_decoded', 'lines_reprimed_from_last_line', 'confident_lines_skipped',
+REQUIRED = ['pages_in_a_folder_vs_alone', 'pages_under_a_limit_that_others_exceed', 'given_line_pages', 'layout_history_pages', 'layout_pages_without_upright_lines', 'histories', 'page_results_compared', 'pages_after_other_page', 'repeated_pages', 'carry_lines_decoded', 'lines_reprimed_from_last_line', 'confident_lines_skipped',
             'page_parser_pages', 'process_pairs_compared', 'resume_runs_compared']
 KNOWN_DS = 'adaptive down-sampling factor carried over from the previous page'
 LETTERS = list('abc')
@@ -229,7 +229,57 @@ class Kill(BaseException):
     pass
 
 
+def folder_vs_alone(mon, ctx):
+    """the batch script on a folder of pages whose names are prefixes of one another (and, with --skipp-missing-xml, on a folder that also holds
+    images without PAGE XML) vs the same script on a folder holding one page only: every page's outputs must be the same"""
+    from pero_ocr.core.layout import PageLayout
+    PF = pipeline.load_parse_folder(ctx.repo)
+    n = 1 if ctx.tier == 'quick' else 6
+    for k in range(n):
+        for variant in ('prefix_names', 'missing_xml'):
+            root = os.path.join(ctx.tmpdir, 'fva%d_%s' % (k, variant))
+            ids = ['page', 'page-1', 'scan', 'scan (2)', 'a', 'a.b'] if variant == 'prefix_names' else ['m1', 'm2', 'm3', 'm4']
+            pipeline.make_batch(root, ids, seed=ctx.seed * 10 + k, n_lines=2)
+            extra_args = []
+            if variant == 'missing_xml':
+                # images without input XML, sorting before and between the pages that have one
+                import cv2
+                rng = np.random.default_rng([ctx.seed, k, 5])
+                for name in ('0cover', 'm2a', 'm35'):
+                    cv2.imwrite('%s/img/%s.png' % (root, name), rng.integers(1, 255, size=(300, 400, 3), dtype=np.uint8))
+                extra_args = ['--skipp-missing-xml']
+            kinds = ['xml', 'logits']
+            r = pipeline.run_main(PF, pipeline.argv_for(root, root + '/all', kinds, skip=False, extra=extra_args))
+            whole = pipeline.snapshot(root + '/all')
+            mon.cur_desc = {'leg': 'folder vs single page', 'variant': variant, 'ids': ids}
+            if r != 'ok' or len(whole) < 2 * len(ids):
+                mon.violation('harness:exception', {'note': 'folder run did not behave as planned', 'status': r, 'files': sorted(whole)[:6]})
+                continue
+            for pid in ids:
+                one = os.path.join(root, 'one_' + pid.replace(' ', '_'))
+                os.makedirs(one + '/img'); os.makedirs(one + '/xml')
+                shutil.copy('%s/img/%s.png' % (root, pid), one + '/img/'); shutil.copy('%s/xml/%s.xml' % (root, pid), one + '/xml/')
+                argv = pipeline.argv_for(root, one + '/out', kinds, skip=False)
+                argv[argv.index('-i') + 1] = one + '/img'; argv[argv.index('-x') + 1] = one + '/xml'
+                r1 = pipeline.run_main(PF, argv)
+                alone = pipeline.snapshot(one + '/out')
+                mon.count('pages_in_a_folder_vs_alone')
+                mon.count('extra_evaluations')
+                diff = [f for f in alone if whole.get(f) != alone[f]]
+                if r1 != 'ok' or not alone or diff:
+                    texts = {}
+                    for f in diff:
+                        if f.startswith('xml/') and f in whole:
+                            texts[f] = {'in_the_folder': [l.transcription for l in PageLayout(file=root + '/all/' + f).lines_iterator()],
+                                        'alone': [l.transcription for l in PageLayout(file=one + '/out/' + f).lines_iterator()]}
+                    mon.violation('page-result-independent-of-history', {'configuration': 'parse_folder on a folder (%s) vs on the page alone' % variant, 'page': pid, 'other_pages': [x for x in ids if x != pid],
+                                  'status': r1, 'differing_files': diff[:4], 'transcriptions': texts}, mechanism='folder-vs-alone')
+            shutil.rmtree(root, ignore_errors=True)
+
+
 def extra(mon, ctx):
+    if ctx.shard == 3 % ctx.nshards:
+        folder_vs_alone(mon, ctx)
     if ctx.shard == 0:
         process_schedules(mon, ctx)
     if ctx.shard == 1 % ctx.nshards:
